@@ -123,7 +123,6 @@ class Probe:
                     for c in self.paths:
                         if posixpath.dirname(c) == rel:
                             ok = ok and ((posixpath.basename(c) in ld) == a[('exists', c)])
-                    ok = ok and ld == sorted(ld)
                 eng.check('C04.law-listdir', ok, (self.fam, 'list_dir', role(self.w, self.w.p(rel), self.targets)),
                           info={'where': where, 'dir': rel, 'list_dir': ld})
                 wk = a[('walk', rel)]
